@@ -25,7 +25,7 @@ PROP = {
 CLAIM = {
     "engine": "rapid-direct",
     "technique": "stateful property-based testing (rapid) of each memstore against a map-based reference model + porcupine linearizability checking of recorded concurrent histories (thorough: also under the Go race detector)",
-    "text": "For each of the seven tmmemstore stores: generated op lists over small key spaces run against the real store and a reference model written from the interface doc comments; every return value (refusal errors, not-found errors, loaded values, hashes recomputed independently) is compared after every op, and values handed out earlier are re-encoded at the end to detect later mutation. Concurrently, 2-8 goroutines run generated op lists on one store; the call/return history stamped by a logical clock is checked for linearizability against the same model with porcupine, and the thorough tier repeats this under -race (half of those cases without the clock, so the detector is not blinded by its synchronisation). Exploration, not proof: only the schedules the Go scheduler produced are covered.",
+    "text": "For each of the seven tmmemstore stores: generated op lists over small key spaces run against the real store and a reference model written from the interface doc comments; the caller reuses the powers slice it saved (the store copies powers); every return value (refusal errors, not-found errors, loaded values, hashes recomputed independently) is compared after every op, and values handed out earlier are re-encoded at the end to detect later mutation. Concurrently, 2-8 goroutines run generated op lists on one store; the call/return history stamped by a logical clock is checked for linearizability against the same model with porcupine, and the thorough tier repeats this under -race (half of those cases without the clock, so the detector is not blinded by its synchronisation). Exploration, not proof: only the schedules the Go scheduler produced are covered.",
     "design_ref": "DESIGN.md section 4 C16",
     "note": "Concurrent failures are not schedule-reproducible: the failure file carries the recorded history and replay re-checks that history deterministically; a process death / race report is replayed by re-running the threads.",
 }
